@@ -161,6 +161,8 @@ struct Handles { c: Vec<(K, Counter)>, g: Vec<(K, Gauge)>, h: Vec<(K, Histogram)
 struct World { rec: Rec, handles: Rc<RefCell<Handles>>, describes: u64 }
 
 static META: Metadata<'static> = Metadata::new("mv", Level::INFO, None);
+/// When set, even huge record counts are performed as that many real `record` calls (one thorough-tier case).
+static FULL_LOOP: AtomicBool = AtomicBool::new(false);
 
 fn apply(rec: &Rec, hs: &RefCell<Handles>, describes: &mut u64, l: &L) {
     match l {
@@ -183,7 +185,7 @@ fn apply(rec: &Rec, hs: &RefCell<Handles>, describes: &mut u64, l: &L) {
         L::HRec(k, b, t) => {
             if let Some((_, h)) = hs.borrow().h.iter().find(|x| &x.0 == k) {
                 let v = f64::from_bits(*b);
-                if *t > (1 << 22) {
+                if *t > (1 << 22) && !FULL_LOOP.load(Ordering::Relaxed) {
                     // very many records of one thread in a row: the bulk accessor leaves the cell in the state that
                     // `t` calls of record() leave it in (confirmed once by the full 2^32-call replay, see docs/C20.md)
                     let clamped = if v > u32::MAX as f64 { u32::MAX } else { v as u32 };
@@ -554,6 +556,16 @@ pub fn run(ctx: &Ctx) {
     for i in 0..(if thorough { 8000 } else { 2500 }) {
         let plan = gen_plan(&mut rng, thorough);
         emit(&mut out, i % 3 == 0, &plan);
+    }
+    if thorough {
+        // the u32 witness once with 2^32 real record() calls (no bulk accessor): about 40 s
+        let k = K { name: "h".into(), labels: vec![] };
+        let plan = vec![Top::Op(L::Register(2, k.clone())), Top::Op(L::HRec(k, 5.0f64.to_bits(), 1 << 32)),
+                        Top::Readout { ts: 1, during: BTreeMap::new() }];
+        FULL_LOOP.store(true, Ordering::Relaxed);
+        emit(&mut out, false, &plan);
+        FULL_LOOP.store(false, Ordering::Relaxed);
+        out.count("full_length_u32_witness");
     }
     for i in 0..(if thorough { 40 } else { 8 }) {
         let threads = rng.range(2, if thorough { 16 } else { 8 }) as usize;
